@@ -1,6 +1,7 @@
 package props
 
 import (
+	"sort"
 	"go/constant"
 	"fmt"
 	"go/ast"
@@ -679,122 +680,539 @@ func c17Append(p *core.Program, r *core.Report) {
 	r.Check(len(direct) == 0, "C17.single-sink", "logger/logfile.FileLogger.logfile", "-", "only Close/Name are called on the handle; lines go through log.Logger", "the file handle is written directly, bypassing the logger's line serialisation: "+strings.Join(direct, ", "))
 }
 
+// c17Limiters: the repeat limiter(s) of the file logger: methods with a bool result that record a
+// time in a map field of the receiver (checkOk; the canary variant has the same shape).
+func c17Limiters(p *core.Program) []*core.FuncInfo {
+	pk := p.Pkg("logger/logfile")
+	var out []*core.FuncInfo
+	for _, fi := range p.Funcs {
+		if fi.Pkg != pk || fi.Decl.Body == nil {
+			continue
+		}
+		rn := core.RecvNamed(fi.Obj)
+		if rn == nil || rn.Obj().Name() != "FileLogger" {
+			continue
+		}
+		sig := fi.Obj.Type().(*types.Signature)
+		if sig.Results().Len() != 1 || !isBoolType(sig.Results().At(0).Type()) || sig.Params().Len() != 2 {
+			continue
+		}
+		puts := false
+		ast.Inspect(fi.Decl.Body, func(n ast.Node) bool {
+			if call, ok := n.(*ast.CallExpr); ok {
+				if sel, ok := call.Fun.(*ast.SelectorExpr); ok && sel.Sel.Name == "Put" && len(call.Args) == 2 {
+					puts = true
+				}
+			}
+			return true
+		})
+		if puts {
+			out = append(out, fi)
+		}
+	}
+	return out
+}
+
+func isBoolType(t types.Type) bool {
+	b, ok := t.Underlying().(*types.Basic)
+	return ok && b.Info()&types.IsBoolean != 0
+}
+
+// c17Levels: the level gate and the repeat limiter of every level method, as a path rule. The
+// configured level ranges over the level constants; each comparison of the level field with a
+// constant narrows the set of settings under which the path runs. At the point a line is handed to
+// the log.Logger the set must be exactly {setting <= the method's level}; the limiter must have let
+// the line through (with the configured interval) after that narrowing; debug lines are not limited.
 func c17Levels(p *core.Program, r *core.Report) {
 	gate := map[string]string{"Warnf": "LOG_LEVEL_WARN", "Warn": "LOG_LEVEL_WARN", "Infof": "LOG_LEVEL_INFO", "Info": "LOG_LEVEL_INFO", "Infoln": "LOG_LEVEL_INFO",
-		"Debugf": "LOG_LEVEL_DEBUG", "Debug": "LOG_LEVEL_DEBUG", "Errorf": "", "Error": ""}
-	for name, lvl := range gate {
+		"Debugf": "LOG_LEVEL_DEBUG", "Debug": "LOG_LEVEL_DEBUG", "Errorf": "LOG_LEVEL_ERROR", "Error": "LOG_LEVEL_ERROR"}
+	lpk := p.Pkg("logger")
+	var levels []int64
+	levelOf := map[string]int64{}
+	if lpk != nil {
+		for _, n := range []string{"LOG_LEVEL_DEBUG", "LOG_LEVEL_INFO", "LOG_LEVEL_WARN", "LOG_LEVEL_ERROR"} {
+			if c, ok := lpk.Types.Scope().Lookup(n).(*types.Const); ok {
+				if v, exact := constant.Int64Val(constant.ToInt(c.Val())); exact {
+					levels = append(levels, v)
+					levelOf[n] = v
+				}
+			}
+		}
+	}
+	if len(levels) != 4 {
+		r.Undec("C17.levels", "logger.LOG_LEVEL_*", "-", "level constants not found")
+		return
+	}
+	limiters := map[*types.Func]bool{}
+	for _, l := range c17Limiters(p) {
+		limiters[l.Obj] = true
+	}
+	// wrappers: unexported helpers all of whose returns hand back a limiter's verdict (allow(s) { id := ...; return checkOk(id, interval) })
+	wrapperRets := map[*types.Func][]*ast.CallExpr{}
+	wrapperOf := map[*types.Func]*core.FuncInfo{}
+	if lp := p.Pkg("logger/logfile"); lp != nil {
+		for changed := true; changed; {
+			changed = false
+			for _, wf := range p.Funcs {
+				if wf.Pkg != lp || wf.Decl.Body == nil || limiters[wf.Obj] || wf.Obj.Exported() {
+					continue
+				}
+				sig := wf.Obj.Type().(*types.Signature)
+				if sig.Results().Len() != 1 || !isBoolType(sig.Results().At(0).Type()) {
+					continue
+				}
+				var rets []*ast.CallExpr
+				all := true
+				ast.Inspect(wf.Decl.Body, func(n ast.Node) bool {
+					if _, ok := n.(*ast.FuncLit); ok {
+						return false
+					}
+					if rs, ok := n.(*ast.ReturnStmt); ok {
+						if len(rs.Results) != 1 {
+							all = false
+							return true
+						}
+						call, ok := ast.Unparen(rs.Results[0]).(*ast.CallExpr)
+						if !ok {
+							all = false
+							return true
+						}
+						sel, ok := call.Fun.(*ast.SelectorExpr)
+						if !ok {
+							all = false
+							return true
+						}
+						fn, _ := wf.Pkg.TypesInfo.ObjectOf(sel.Sel).(*types.Func)
+						if fn == nil || !limiters[fn] {
+							all = false
+							return true
+						}
+						rets = append(rets, call)
+					}
+					return true
+				})
+				if all && len(rets) > 0 {
+					limiters[wf.Obj] = true
+					wrapperRets[wf.Obj] = rets
+					wrapperOf[wf.Obj] = wf
+					changed = true
+				}
+			}
+		}
+	}
+	var intervalIn func(info *types.Info, body *ast.BlockStmt, call *ast.CallExpr, depth int) bool
+	intervalIn = func(info *types.Info, body *ast.BlockStmt, call *ast.CallExpr, depth int) bool {
+		if sel, ok := call.Fun.(*ast.SelectorExpr); ok {
+			if fn, _ := info.ObjectOf(sel.Sel).(*types.Func); fn != nil && wrapperOf[fn] != nil && depth < 4 {
+				w := wrapperOf[fn]
+				for _, rc := range wrapperRets[fn] {
+					if !intervalIn(w.Pkg.TypesInfo, w.Decl.Body, rc, depth+1) {
+						return false
+					}
+				}
+				return true
+			}
+		}
+		if len(call.Args) != 2 {
+			return false
+		}
+		e := stripConvs(info, expandLocals(info, body, call.Args[1]))
+		sel, ok := ast.Unparen(e).(*ast.SelectorExpr)
+		if !ok {
+			return false
+		}
+		fv, ok := info.ObjectOf(sel.Sel).(*types.Var)
+		return ok && fv.IsField() && fv.Name() == "cacheInterval"
+	}
+	names := make([]string, 0, len(gate))
+	for n := range gate {
+		names = append(names, n)
+	}
+	sort.Strings(names)
+	for _, name := range names {
+		lvlName := gate[name]
 		fi := logMethod(p, name)
 		c := "logger/logfile.(*FileLogger)." + name
 		if fi == nil || fi.Decl.Body == nil {
 			r.Undec("C17.levels", c, "-", "method not found")
 			continue
 		}
+		info := fi.Pkg.TypesInfo
 		pos := p.Pos(fi.Decl.Pos())
-		first := fi.Decl.Body.List[0]
-		if lvl == "" {
-			_, isIf := first.(*ast.IfStmt)
-			gated := false
-			if isIf {
-				gated = strings.Contains(types.ExprString(first.(*ast.IfStmt).Cond), "level")
+		L := levelOf[lvlName]
+		isLevel := func(e ast.Expr) bool {
+			e = stripConvs(info, expandLocals(info, fi.Decl.Body, e))
+			sel, ok := ast.Unparen(e).(*ast.SelectorExpr)
+			if !ok {
+				return false
 			}
-			r.Check(!gated, "C17.levels", c, pos, "errors are never gated by level", "error lines are suppressed by the level setting")
-		} else {
-			ok := false
-			if ifs, isIf := first.(*ast.IfStmt); isIf {
-				cs := stripSpaces(types.ExprString(ifs.Cond))
-				ok = strings.HasSuffix(cs, "conf.level>logger."+lvl) && len(ifs.Body.List) == 1
-				if _, isRet := ifs.Body.List[0].(*ast.ReturnStmt); !isRet {
-					ok = false
-				}
-			}
-			r.Check(ok, "C17.levels", c, pos, "returns when conf.level > "+lvl, "the method is not gated by `conf.level > logger."+lvl+"` as its first statement: lines of this level appear or disappear at the wrong setting")
+			fv, ok := info.ObjectOf(sel.Sel).(*types.Var)
+			return ok && fv.IsField() && fv.Name() == "level"
 		}
-		// rate limiter after the gate with cacheInterval (debug: no cache)
-		// the limiter call, in the method itself or in an unexported same-package helper it delegates to
-		uses := ""
-		var findLimiter func(body ast.Node, depth int)
-		findLimiter = func(body ast.Node, depth int) {
-			ast.Inspect(body, func(m ast.Node) bool {
-				call, ok := m.(*ast.CallExpr)
-				if !ok {
-					return true
+		limiterCall := func(e ast.Expr) *ast.CallExpr {
+			call, ok := ast.Unparen(e).(*ast.CallExpr)
+			if !ok {
+				return nil
+			}
+			if sel, ok := call.Fun.(*ast.SelectorExpr); ok {
+				if fn, _ := info.ObjectOf(sel.Sel).(*types.Func); fn != nil && limiters[fn] {
+					return call
 				}
-				if strings.HasSuffix(stripSpaces(types.ExprString(call.Fun)), ".checkOk") && len(call.Args) == 2 {
-					uses = stripSpaces(types.ExprString(call.Args[1]))
-					return true
-				}
-				if sel, isSel := call.Fun.(*ast.SelectorExpr); isSel && depth < 2 {
-					if fn, _ := fi.Pkg.TypesInfo.Uses[sel.Sel].(*types.Func); fn != nil && !fn.Exported() && fn.Pkg() == fi.Obj.Pkg() {
-						if cfi := p.FuncOf(fn); cfi != nil && cfi.Decl.Body != nil && cfi != fi {
-							findLimiter(cfi.Decl.Body, depth+1)
+			}
+			return nil
+		}
+		intervalOK := func(call *ast.CallExpr) bool { return intervalIn(info, fi.Decl.Body, call, 0) }
+		in := newInliner(p, fi, func(fn *types.Func) bool { return limiters[fn] })
+		undecided := ""
+		ps, over := paths.Enumerate(fi.Decl.Body, paths.Config{Info: info, Inline: in.Body, Expand: in.Expand,
+			Cond: func(cnd ast.Expr, v bool) *paths.Event {
+				// limiter outcome: checkOk(..), checkOk(..) == false, checkOk(..) != true ...
+				core_, pol := cnd, v
+				if be, ok := ast.Unparen(cnd).(*ast.BinaryExpr); ok && (be.Op == token.EQL || be.Op == token.NEQ) {
+					for _, sides := range [][2]ast.Expr{{be.X, be.Y}, {be.Y, be.X}} {
+						if tv, ok := info.Types[sides[1]]; ok && tv.Value != nil && tv.Value.Kind() == constant.Bool {
+							core_ = sides[0]
+							if constant.BoolVal(tv.Value) != (be.Op == token.EQL) {
+								pol = !pol
+							}
 						}
 					}
 				}
-				return true
-			})
-		}
-		findLimiter(fi.Decl.Body, 0)
-		if strings.HasPrefix(name, "Debug") {
-			r.Check(uses == "", "C17.ratelimit", c+" limiter", pos, "debug lines are not rate limited", "debug lines are rate limited")
-		} else {
-			r.Check(strings.HasSuffix(uses, "conf.cacheInterval"), "C17.ratelimit", c+" limiter", pos, "checkOk(id, conf.cacheInterval)", "the repeat limiter is not consulted with the configured interval ("+uses+")")
-		}
-	}
-	// checkOk (and the canary variant)
-	pk := p.Pkg("logger/logfile")
-	for _, fi := range p.Funcs {
-		if fi.Pkg != pk || fi.Decl.Body == nil || !(fi.Obj.Name() == "checkOk" || fi.Obj.Name() == "zzCanaryCheckOk") {
-			continue
-		}
-		rn := recvName(fi)
-		ps, _ := paths.Enumerate(fi.Decl.Body, paths.Config{Info: fi.Pkg.TypesInfo,
-			Cond: func(c ast.Expr, v bool) *paths.Event {
-				return &paths.Event{Kind: "COND", Arg: fmt.Sprintf("%s=%v", strings.ReplaceAll(stripSpaces(types.ExprString(c)), rn+".", ""), v)}
+				if call := limiterCall(core_); call != nil {
+					k := "LIMITNO"
+					if pol {
+						k = "LIMITOK"
+					}
+					arg := "other"
+					if intervalOK(call) {
+						arg = "interval"
+					}
+					return &paths.Event{Kind: k, Arg: arg, Pos: call.Pos()}
+				}
+				// level comparison
+				be, ok := ast.Unparen(cnd).(*ast.BinaryExpr)
+				if !ok {
+					return nil
+				}
+				lx, ly := isLevel(be.X), isLevel(be.Y)
+				if lx == ly {
+					if lx {
+						undecided = "level compared with itself"
+					}
+					return nil
+				}
+				other := be.Y
+				if ly {
+					other = be.X
+				}
+				tv, ok := info.Types[other]
+				if !ok || tv.Value == nil {
+					undecided = "the level is compared with a non-constant at " + p.Pos(cnd.Pos())
+					return nil
+				}
+				k, exact := constant.Int64Val(constant.ToInt(tv.Value))
+				if !exact {
+					return nil
+				}
+				set := ""
+				for _, lv := range levels {
+					a, b := lv, k
+					if ly {
+						a, b = k, lv
+					}
+					var holds bool
+					switch be.Op {
+					case token.LSS:
+						holds = a < b
+					case token.LEQ:
+						holds = a <= b
+					case token.GTR:
+						holds = a > b
+					case token.GEQ:
+						holds = a >= b
+					case token.EQL:
+						holds = a == b
+					case token.NEQ:
+						holds = a != b
+					default:
+						return nil
+					}
+					if holds == v {
+						set += fmt.Sprintf("%d,", lv)
+					}
+				}
+				return &paths.Event{Kind: "LVL", Arg: set, Pos: cnd.Pos()}
 			},
 			Classify: func(n ast.Node) []paths.Event {
 				var out []paths.Event
 				ast.Inspect(n, func(m ast.Node) bool {
-					switch v := m.(type) {
-					case *ast.CallExpr:
-						if strings.HasSuffix(stripSpaces(types.ExprString(v.Fun)), "lastLog.Put") {
-							out = append(out, paths.Event{Kind: "PUT"})
-						}
-					case *ast.ReturnStmt:
-						if len(v.Results) == 1 {
-							out = append(out, paths.Event{Kind: "RETVAL", Arg: types.ExprString(v.Results[0])})
+					call, ok := m.(*ast.CallExpr)
+					if !ok {
+						return true
+					}
+					if lc := limiterCall(call); lc != nil {
+						out = append(out, paths.Event{Kind: "LIMIT", Pos: call.Pos()})
+						return true
+					}
+					if sel, ok := call.Fun.(*ast.SelectorExpr); ok {
+						if fn, _ := info.ObjectOf(sel.Sel).(*types.Func); fn != nil && fn.Pkg() != nil && fn.Pkg().Path() == "log" {
+							if sig := fn.Type().(*types.Signature); sig.Recv() != nil {
+								out = append(out, paths.Event{Kind: "OUT", Pos: call.Pos()})
+							}
 						}
 					}
 					return true
 				})
 				return out
 			}})
+		if over || undecided != "" {
+			r.Undec("C17.levels", c, pos, "too many paths / "+undecided)
+			continue
+		}
+		reach := map[int64]bool{}
+		var lvProbs, rlProbs []string
+		outs, limited := 0, 0
+		for _, pa := range ps {
+			if !pa.Consistent() {
+				continue
+			}
+			poss := map[int64]bool{}
+			for _, lv := range levels {
+				poss[lv] = true
+			}
+			narrow := func(arg string) {
+				for _, lv := range levels {
+					if !strings.Contains(","+arg, fmt.Sprintf(",%d,", lv)) {
+						delete(poss, lv)
+					}
+				}
+			}
+			within := func() bool {
+				for lv := range poss {
+					if lv > L {
+						return false
+					}
+				}
+				return true
+			}
+			passed, refused, anyLimit, badInterval := false, false, false, false
+			for _, e := range pa {
+				switch e.Kind {
+				case "LVL":
+					narrow(e.Arg)
+				case "LIMIT":
+					anyLimit = true
+					if !within() {
+						rlProbs = append(rlProbs, "the repeat limiter is consulted at "+p.Pos(e.Pos)+" before the level gate: a line that the level setting filters out still refreshes the stored time of its id")
+					}
+				case "LIMITOK":
+					passed = true
+					if e.Arg != "interval" {
+						badInterval = true
+					}
+				case "LIMITNO":
+					refused = true
+				case "OUT":
+					outs++
+					if len(poss) == 0 {
+						continue
+					}
+					if !within() {
+						lvProbs = append(lvProbs, fmt.Sprintf("a line reaches the log at %s under a level setting above %s", p.Pos(e.Pos), lvlName))
+					}
+					for lv := range poss {
+						reach[lv] = true
+					}
+					if strings.HasPrefix(name, "Debug") {
+						if anyLimit {
+							rlProbs = append(rlProbs, "debug lines are rate limited")
+						}
+					} else {
+						limited++
+						if !passed || refused {
+							rlProbs = append(rlProbs, "a line reaches the log at "+p.Pos(e.Pos)+" on a path where the repeat limiter did not let it through")
+						} else if badInterval {
+							rlProbs = append(rlProbs, "the repeat limiter is not consulted with the configured interval")
+						}
+					}
+				}
+			}
+		}
+		if outs == 0 {
+			lvProbs = append(lvProbs, "no path hands a line to the log.Logger")
+		}
+		for _, lv := range levels {
+			if lv <= L && !reach[lv] && outs > 0 {
+				lvProbs = append(lvProbs, fmt.Sprintf("with the level set to %d no line of %s is written although %d <= %s", lv, name, lv, lvlName))
+			}
+		}
+		fileProbs(r, "C17.levels", c, pos, lvProbs, "lines reach the log exactly when conf.level <= "+lvlName)
+		what := "the repeat limiter lets the line through (configured interval) after the level gate"
+		if strings.HasPrefix(name, "Debug") {
+			what = "debug lines are not rate limited"
+		}
+		fileProbs(r, "C17.ratelimit", c+" limiter", pos, rlProbs, what)
+	}
+	// the limiter itself (and the canary variant)
+	for _, fi := range c17Limiters(p) {
+		info := fi.Pkg.TypesInfo
+		params := fi.Decl.Type.Params.List
+		var idObj, secObj types.Object
+		k := 0
+		for _, f := range params {
+			for _, n := range f.Names {
+				if k == 0 {
+					idObj = info.Defs[n]
+				} else if k == 1 {
+					secObj = info.Defs[n]
+				}
+				k++
+			}
+		}
+		atom := func(e ast.Expr) (string, bool) {
+			switch v := ast.Unparen(e).(type) {
+			case *ast.Ident:
+				if o := info.ObjectOf(v); o != nil && o == secObj {
+					return "sec", true
+				}
+			case *ast.CallExpr:
+				if isClockCall(info, v) {
+					return "now", true
+				}
+				if sel, ok := v.Fun.(*ast.SelectorExpr); ok && sel.Sel.Name == "Get" && len(v.Args) == 1 {
+					if id, ok := ast.Unparen(v.Args[0]).(*ast.Ident); ok && info.ObjectOf(id) == idObj {
+						return "last", true
+					}
+				}
+			}
+			return "", false
+		}
+		type fact struct {
+			f   lform
+			rel string
+		}
+		in := newInliner(p, fi, nil)
+		ps, over := paths.Enumerate(fi.Decl.Body, paths.Config{Info: info, Inline: in.Body, Expand: in.Expand,
+			Cond: func(cnd ast.Expr, v bool) *paths.Event {
+				if f, rel, ok := linRel(info, fi.Decl.Body, cnd, v, atom); ok {
+					return &paths.Event{Kind: "REL", Arg: lformKey(f) + " " + rel + " 0", Pos: cnd.Pos()}
+				}
+				return &paths.Event{Kind: "COND", Arg: fmt.Sprintf("%s=%v", stripSpaces(types.ExprString(cnd)), v), Pos: cnd.Pos(), Node: cnd}
+			},
+			Classify: func(n ast.Node) []paths.Event {
+				var out []paths.Event
+				ast.Inspect(n, func(m ast.Node) bool {
+					switch v := m.(type) {
+					case *ast.CallExpr:
+						if sel, ok := v.Fun.(*ast.SelectorExpr); ok && sel.Sel.Name == "Put" && len(v.Args) == 2 {
+							arg := "other"
+							if f, ok := linearize(info, fi.Decl.Body, v.Args[1], atom); ok && f.is(map[string]int64{"now": 1}) {
+								arg = "now"
+							}
+							out = append(out, paths.Event{Kind: "PUT", Arg: arg, Pos: v.Pos()})
+						}
+					case *ast.ReturnStmt:
+						if len(v.Results) == 1 {
+							arg := "?"
+							if tv, ok := info.Types[v.Results[0]]; ok && tv.Value != nil && tv.Value.Kind() == constant.Bool {
+								arg = fmt.Sprint(constant.BoolVal(tv.Value))
+							}
+							out = append(out, paths.Event{Kind: "RETVAL", Arg: arg, Pos: v.Pos(), Node: v.Results[0]})
+						}
+					}
+					return true
+				})
+				return out
+			}})
+		c := core.FuncName(fi.Obj)
+		pos := p.Pos(fi.Decl.Pos())
+		if over {
+			r.Undec("C17.ratelimit", c, pos, "too many paths")
+			continue
+		}
+		// canonical statements: suppress <=> now - last - 1000*sec < 0 ; enabled <=> -sec < 0
+		suppress := "last:-1 now:1 sec:-1000 < 0"
+		through := "last:1 now:-1 sec:1000 <= 0"
+		enabled := "sec:-1 < 0"
 		var probs []string
 		sup := 0
+		undec := ""
 		for _, pa := range ps {
-			if pa.HasArg("RETVAL", "false") {
+			if os.Getenv("C17_DEBUG") != "" {
+				fmt.Fprintln(os.Stderr, "PATH", pa.String())
+			}
+			if !pa.Consistent() {
+				continue
+			}
+			ret := ""
+			for _, e := range pa {
+				if e.Kind == "RETVAL" {
+					ret = e.Arg
+					if ret == "?" {
+						// a returned boolean expression: its value on this path is what the path's own tests say
+						if ex, ok := e.Node.(ast.Expr); ok {
+							ex = in.Expand(ex)
+							for _, pol := range []bool{true, false} {
+								if f, rel, ok := linRel(info, fi.Decl.Body, ex, pol, atom); ok && pa.HasArg("REL", lformKey(f)+" "+rel+" 0") {
+									ret = fmt.Sprint(pol)
+								}
+							}
+						}
+					}
+				}
+			}
+			switch ret {
+			case "false":
 				sup++
 				if pa.Has("PUT") {
 					probs = append(probs, "a suppressed call still refreshes the stored time: a message repeated at gaps shorter than the interval is never written again")
 				}
-				okc := false
-				for _, e := range pa {
-					if e.Kind == "COND" && (e.Arg == "now<(last+int64(sec)*1000)=true" || e.Arg == "now<last+int64(sec)*1000=true") {
-						okc = true
-					}
-				}
-				if !okc {
+				if !pa.HasArg("REL", suppress) {
 					probs = append(probs, "suppression is not decided by now < last + sec*1000")
 				}
+			case "true":
+				if pa.HasArg("REL", enabled) && pa.HasArg("REL", through) && !pa.HasArg("PUT", "now") {
+					probs = append(probs, "a line that is let through does not record its time")
+				}
+				if pa.HasArg("REL", suppress) {
+					probs = append(probs, "a repeat inside the interval is let through")
+				}
+			case "":
+			default:
+				undec = "a returned boolean expression whose value the path does not determine"
 			}
-			if pa.HasArg("RETVAL", "true") && pa.HasArg("COND", "sec>0=true") && !pa.Has("PUT") {
-				probs = append(probs, "a line that is let through does not record its time")
-			}
+		}
+		if undec != "" {
+			r.Undec("C17.ratelimit", c, pos, undec)
+			continue
 		}
 		if sup == 0 {
 			probs = append(probs, "never suppresses")
 		}
-		fileProbs(r, "C17.ratelimit", core.FuncName(fi.Obj), p.Pos(fi.Decl.Pos()), probs, "suppress iff now < last+sec*1000; time recorded only when passing")
+		fileProbs(r, "C17.ratelimit", c, pos, probs, "suppress iff now < last+sec*1000; time recorded only when passing")
 	}
+}
+
+// lformKey: deterministic spelling of a linear form ("a:1 b:-2", constant term under "1").
+func lformKey(f lform) string {
+	f.clean()
+	keys := make([]string, 0, len(f))
+	for k := range f {
+		keys = append(keys, k)
+	}
+	sort.Strings(keys)
+	var sb strings.Builder
+	for i, k := range keys {
+		if i > 0 {
+			sb.WriteByte(' ')
+		}
+		n := k
+		if n == "" {
+			n = "1"
+		}
+		fmt.Fprintf(&sb, "%s:%d", n, f[k])
+	}
+	return sb.String()
 }
 
 func c17Rotate(p *core.Program, r *core.Report) {
